@@ -9,3 +9,20 @@ for which, roots, stub in (('url', ['url_parse_ipv4'], []), ('url_aggregator', [
                     globals=[('omitted', 'const unsigned int'), ('ipv4_fast_fail', U64), ('url_default', '@default'), ('url_aggregator_default', '@default')],
                     solver='cadical', timeout=3000, object_bits=10, tier='thorough', bound='host text <= 9 bytes',
                     note='%s::parse_ipv4 == the Standard\'s IPv4 parser + serializer (the contract shared by both URL types)' % which))
+
+# IPv6 twins: bounded equality with the Standard's parser, and parse o serialize = id over all 2^128 addresses
+for which, roots, stub in (('url', ['url_parse_ipv6'], []), ('url_aggregator', ['agg_parse_ipv6'], ['agg_update_base_hostname'])):
+    only = 'ONLY_URL=1' if which == 'url' else 'ONLY_AGG=1'
+    OBLS.append(Obl('C04.parse_ipv6.twin.%s/b10' % which, ['C04', 'C10', 'C02'], 'B(10)', 'c10/ipv6_twin.c', roots=roots,
+                    stub=stub, specs={'agg_update_base_hostname': 'skel/agg_update_base_hostname.recordk.spec'},
+                    bufn=10, unwind=12, unwindset=['str_ctor__z_c.0:43', 'str_resize__z_c.0:43'], defines=['STR_CAP=42', 'BUF_START=1', only], includes=INC,
+                    globals=[('omitted', 'const unsigned int'), ('url_default', '@default'), ('url_aggregator_default', '@default')],
+                    solver='kissat', timeout=3000, object_bits=10, tier='thorough', bound='host text <= 10 bytes',
+                    note='%s::parse_ipv6 == the Standard\'s IPv6 parser + serializer (the contract shared by both URL types)' % which))
+    OBLS.append(Obl('C10.parse_ipv6.serialized_identity.%s' % which, ['C10', 'C04', 'C05', 'C02'], 'P#', 'c10/ipv6_twin.c', roots=roots,
+                    stub=stub, specs={'agg_update_base_hostname': 'skel/agg_update_base_hostname.recordk.spec'},
+                    unwind=48, defines=['STR_CAP=42', only, 'IPV6_FROM_ADDRESS=1'], includes=INC,
+                    globals=[('omitted', 'const unsigned int'), ('url_default', '@default'), ('url_aggregator_default', '@default')],
+                    solver='kissat', timeout=6000, object_bits=10, tier='thorough',
+                    note='all 2^128 addresses: %s::parse_ipv6 applied to the Standard\'s serialization succeeds and stores the serialization of the same address '
+                         '(with C10.serializers.ipv6.exact: parsing a serialised address is the identity)' % which))
